@@ -179,6 +179,6 @@ for _pid, _ss in EXTRA_STREAMS.items():
         PROPS[_pid]["streams"] = PROPS[_pid]["streams"] + [s for s in _ss if s["name"] not in _have]
 
 # hook commits in /repo (build tag `verif`)
-HOOK_COMMITS = ["635e10c"]
+HOOK_COMMITS = ["635e10c", "a4edf37"]
 # properties that are not claimed, with the reason
 NOT_APPLICABLE = dict(PENDING)
